@@ -13,7 +13,21 @@ from .main import Result
 from .parser_kit import ParserKit
 from .h_c01 import PEnv, names_of, _short
 
+def _filler(n):
+    """n tokens of valid filler statements (`g q;` and `a;`), so that the skeleton starts at token index n"""
+    out = []
+    while n >= 3 and n != 4 and n != 2:
+        out += ["IDENT", "IDENT", "SEMICOLON"]; n -= 3
+    while n >= 2:
+        out += ["IDENT", "SEMICOLON"]; n -= 2
+    assert n == 0
+    return out
+
+
 PLACEMENTS = {
+    "at_61": (_filler(61), []),       # the 64-token words of the parser's joint-bit table: operators straddling the word boundary
+    "at_62": (_filler(62), []),
+    "at_63": (_filler(63), []),
     "alone": ([], []),
     "after_decl": (["INT_TY", "IDENT", "SEMICOLON"], []),
     "after_call": (["IDENT", "IDENT", "SEMICOLON"], []),
@@ -143,6 +157,11 @@ def build_tasks(depth, placements, maxlen):
             for pl in placements:
                 if pl == "in_block" and name.startswith(GLOBAL_ONLY):
                     continue
+                if pl.startswith("at_"):
+                    if shape == sk or name.split("<")[0] not in ("cmpassign", "cmpassign_pow", "expr_stmt", "decl_init", "alias_concat", "measure_arrow", "def1w_ret"):
+                        continue      # word-boundary placements: statements that contain multi-token operators
+                    tasks.append((tag, shape, pl))
+                    continue
                 if pl != "alone" and "<" in name and not name.endswith("<atom>"):
                     continue      # placement exercises statement dispatch; expression variants are placed alone
                 if len(shape) + len(PLACEMENTS[pl][0]) + len(PLACEMENTS[pl][1]) > maxlen:
@@ -164,7 +183,7 @@ def run(ctx):
     kit = ParserKit()
     depth = 2 if ctx.quick() else 3
     maxlen = 16 if ctx.quick() else 28
-    placements = ["alone", "after_call", "in_block"] if ctx.quick() else list(PLACEMENTS)
+    placements = ["alone", "after_call", "in_block", "at_62", "at_63"] if ctx.quick() else list(PLACEMENTS)
     depth = int(os.environ.get("VERIF_C04_DEPTH", depth))
     tasks = build_tasks(depth, placements, maxlen)
     if os.environ.get("VERIF_C04_ONLY"):
